@@ -36,7 +36,7 @@ class Job:
                  unwind=None, label="proof", defines=None, min_post=1, min_lis=0,
                  timeout=900, tiers=("quick", "thorough"), solver=None, note="",
                  replay=None, objbits=None, extra_cbmc=(), fallback=True, maxw=None,
-                 expect_fail=(), src=None, unwindset=None, cost=10, family=None, optional=False, canary_from=None, split=0, loop_contracts=True, drop_checks=(), plain_loop_contracts=False, fallback_plain=None):
+                 expect_fail=(), src=None, unwindset=None, cost=10, family=None, optional=False, canary_from=None, split=0, loop_contracts=True, drop_checks=(), plain_loop_contracts=False, fallback_plain=None, tdefs=None, ttimeout=None, tunwind=None):
         self.name = name; self.driver = driver; self.entry = entry
         self.enforce = enforce; self.replace = list(replace); self.mode = mode
         self.unwind = unwind; self.label = label; self.defines = dict(defines or {})
@@ -45,6 +45,20 @@ class Job:
         self.objbits = objbits; self.extra_cbmc = list(extra_cbmc); self.fallback = fallback
         self.maxw = maxw; self.expect_fail = list(expect_fail); self.src = src
         self.unwindset = unwindset; self.cost = cost; self.family = family; self.optional = optional; self.canary_from = canary_from; self.split = split; self.loop_contracts = loop_contracts; self.drop_checks = tuple(drop_checks); self.plain_loop_contracts = plain_loop_contracts; self.fallback_plain = fallback_plain
+        self.tdefs = dict(tdefs or {}); self.ttimeout = ttimeout; self.tunwind = tunwind
+
+    def for_tier(self, tier):
+        """the thorough tier widens the stated bounds of a job (larger buffers, quantifier bounds, string lengths, time)"""
+        if tier != "thorough" or not (self.tdefs or self.ttimeout or self.tunwind):
+            return self
+        import copy
+        j = copy.copy(self)
+        j.defines = dict(self.defines); j.defines.update(self.tdefs)
+        if self.ttimeout: j.timeout = self.ttimeout
+        if self.tunwind: j.unwind = self.tunwind
+        if self.tdefs:
+            j.note = self.note + " [thorough tier: " + ", ".join("%s=%s" % kv for kv in self.tdefs.items()) + "]"
+        return j
 
     def maxw_for(self, tier):
         if self.maxw is not None:
